@@ -396,7 +396,7 @@ func (c *c28Ctx) collectLive() {
 	c.uxids = append(c.uxids, strings.Repeat("cd", 32))
 	c.bhash = append(c.bhash, strings.Repeat("ef", 32))
 	c.addrs = append(c.addrs, cipher.AddressFromPubKey(c28Publisher.Pub).String(), "2GgFvqoyk9RjwVzj8tqfcXVXB4orBwoc9qv", "1BvBMSEYstWetqTFn5Au4m4GFg7xJaNVN2")
-	c.wids = []string{"det.wlt", "bip.wlt", "enc.wlt", "col.wlt", "det.wlt", "nosuch.wlt", "../wallets/det.wlt", "det"}
+	c.wids = []string{"det.wlt", "bip.wlt", "enc.wlt", "col.wlt", "xpub.wlt", "det.wlt", "nosuch.wlt", "../wallets/det.wlt", "det"}
 }
 
 // requests confirmed to hang (see the hang rule in TestC28_NoRequestCrashesTheNode)
